@@ -704,7 +704,7 @@ fn emit(out: &mut Out, stream: &str, id: &mut u64, rq: &Req, a: Answer, delta: O
         Some(d) => d.to_string(),
         None => "na".to_string(),
     };
-    out.line(&format!("{} => {}", rq.line_input(stream, *id, a.port), g.line_output(&d, &format!("r{}", a.resent))));
+    out.line(&format!("{} => {}", rq.line_input(stream, *id), g.line_output(a.port, &d, &format!("r{}", a.resent))));
     g.status == 200
 }
 
